@@ -266,6 +266,29 @@ fn explorer_scenario() -> Scenario {
     }
     steps.push(Step::Block(BlockSpec { id: format!("jd{b}"), txs, cb: vec![OutSpec { v: SUBSIDY_UNITS, t: "tr".into(), s: 0 }] }));
   }
+  // a second parent with exactly one full page (100) of children
+  let q = EnvSpec { label: "JQ".into(), input: 0, ..Default::default() };
+  let y = EnvSpec { label: "JY0".into(), input: 0, ..Default::default() };
+  let mut txs = vec![
+    TxSpec { label: "jq".into(), ins: vec!["cjb3:0".into()], outs: vec![OutSpec { v: SUBSIDY_UNITS, t: "tr".into(), s: 1 }], envs: vec![q], ..Default::default() },
+    TxSpec { label: "jy0".into(), ins: vec!["cjb4:0".into()], outs: vec![OutSpec { v: SUBSIDY_UNITS, t: "tr".into(), s: 2 }], envs: vec![y], ..Default::default() },
+  ];
+  let mut prev_y = "jy0:0".to_string();
+  let mut prev_q = "jq:0".to_string();
+  for k in 1..=100 {
+    let label = format!("jy{k}");
+    let e = EnvSpec { label: format!("JY{k}"), input: 0, parents: vec!["JQ".into()], ..Default::default() };
+    txs.push(TxSpec {
+      label: label.clone(),
+      ins: vec![prev_y.clone(), prev_q.clone()],
+      outs: vec![OutSpec { v: SUBSIDY_UNITS, t: "tr".into(), s: 2 }, OutSpec { v: SUBSIDY_UNITS, t: "tr".into(), s: 1 }],
+      envs: vec![e],
+      ..Default::default()
+    });
+    prev_y = format!("{label}:0");
+    prev_q = format!("{label}:1");
+  }
+  steps.push(Step::Block(BlockSpec { id: "jf0".into(), txs, cb: vec![OutSpec { v: SUBSIDY_UNITS, t: "tr".into(), s: 0 }] }));
   // an inscription whose sat is paid as fee and not claimed by the coinbase: lost
   steps.push(Step::Block(BlockSpec {
     id: "je0".into(),
